@@ -121,11 +121,13 @@ Definition chk_c01g (c : c01fb_case) : Z :=
       let xi := xinfo_flat (fb_xinfo c) d1 in
       let ts1 := map (up_node d) ts in
       if negb (design_eqb d' (lower_m fl_impl d1)) then 5 else
-      if negb (names_ok_m fl_impl d1 && no_pairs d1) then 3 else
-      match traverse (borbit d1 (bdesign_fuel d1)) ts1, blabels d (bdesign_fuel d) ts, blabels d1 (bdesign_fuel d1) ts1 with
+      (* the decidable hypotheses of C01G_bundles_end_to_end (names_ok_m and no_pairs are theorems: evaluated as a cross-check) *)
+      if negb (pairs_wf d && bp_wf d1 && forallb (node_path_ok d) ts) then 3 else
+      if negb (names_ok_m fl_impl d1 && no_pairs d1) then 4 else
+      match traverse (borbit d (bdesign_fuel d)) ts, blabels d (bdesign_fuel d) ts, blabels d1 (bdesign_fuel d1) ts1 with
       | Ok os, Ok bl, Ok bl1 =>
-          if negb (zlist_eqb bl bl1) then 3 else
-          if negb (forallb (forallb (bnode_ok d1)) os && forallb (orbit_closed d1) os) then 3 else
+          if negb (zlist_eqb bl bl1) then 4 else
+          if negb (forallb (forallb (bnode_ok d)) os && forallb (orbit_closed d) os) then 3 else
           match wf_design d', terminals d' with
           | Ok _, Ok tl =>
               if negb (forallb (fun t => existsb (node_eqb (phi_m fl_impl d1 t)) (map fst tl)) ts1) then 3 else
